@@ -24,7 +24,7 @@ From XmlRs Require Import Base.CPred Model.Store Model.DomOps Proofs.DomTree Pro
   Proofs.DomCheck Proofs.DomL1RefineValue Proofs.DomL1Frame Proofs.DomL1RefineSetAttr Proofs.DomL1RefineInv Proofs.DomL1RefineSplit
   Proofs.DomL1RefineDoc Proofs.DomL1RefineNames Proofs.DomL1RefineAll Proofs.DomL1RefineInvCheck
   Model.DomFacts Proofs.DomFactsAgree Proofs.DomFactsRefine.
-From XmlRs Require Spec.DomCharData Spec.DomL1 Proofs.NameLanguage Proofs.DomFactsData Proofs.DisplayLex.
+From XmlRs Require Spec.DomCharData Spec.DomL1 Proofs.NameLanguage Proofs.DomFactsData Proofs.DisplayLex Proofs.XmlWFLexical Proofs.DomFactsC02.
 Import ListNotations.
 Open Scope N_scope.
 
@@ -523,9 +523,10 @@ Theorem C13_facts_of_data_agree : forall s,
   pi_data_agrees (facts_of_data s) /\ (DomFactsData.value_D04 s = false -> value_facts_agree (facts_of_data s)).
 Proof. exact facts_of_data_agree. Qed.
 
-(** the predicate of C02 on attribute values ([XmlWFLexical.no_D04], restated) is coarser than [value_D04] *)
-Theorem C13_value_D04_c02 : forall s, no_D04_c02 s = true -> DomFactsData.value_D04 s = false.
-Proof. exact no_D04_c02_value. Qed.
+(** the predicate of C02 on attribute values (the side condition of [att_value_language_except_D04]) is
+    coarser than [value_D04]: it also excludes an ampersand that starts no reference *)
+Theorem C13_value_D04_c02 : forall s, XmlWFLexical.no_D04 s = true -> DomFactsData.value_D04 s = false.
+Proof. exact DomFactsC02.no_D04_value. Qed.
 
 (** the exclusions are needed.  D04: create_processing_instruction("1", ..) -- the model parser
     returns the target 1, no PITarget.  A reference with a D04 name in an attribute value: "&1;".
